@@ -41,7 +41,9 @@ def extract(run):
 
 def make_election(seed):
     rng = random.Random(seed)
-    return E.gen_election(rng, size="small", roles=["reporting"] * 6 + ["partial"] * 3 + ["zero-percent", "blocklisted"], min_reporting=14)
+    # three states: the bootstrap estimator then has several contests with a contest effect (their draws are sampled jointly)
+    return E.gen_election(rng, size="small", roles=["reporting"] * 6 + ["partial"] * 3 + ["zero-percent", "blocklisted"], min_reporting=14,
+                          n_states=3)
 
 
 def argsets(seed):
@@ -78,7 +80,10 @@ def run_history(history, seed):
             e2 = E.gen_election(rng2, size="small", district=True, roles=["reporting"] * 6 + ["partial"] * 2, min_reporting=10)
             r = E.run_client(e2, client=cl, pi_method="nonparametric", estimands=["turnout"], alphas=[0.5], features=[],
                              aggregates=["postal_code", "unit"])
-            out.append("other:" + (P.digest(r["tables"]) if "tables" in r else "raises:" + r["raises"]))
+            r2 = E.run_client(e2, pi_method="nonparametric", estimands=["turnout"], alphas=[0.5], features=[],
+                              aggregates=["postal_code", "unit"])
+            dg = lambda x: P.digest(x["tables"]) if "tables" in x else "raises:" + x["raises"]  # noqa: E731
+            out.append("other:" + dg(r) + "|fresh:" + dg(r2))
         elif h[0] == "fresh":
             a = sets[h[1]]
             r = E.run_client(e, **a)
@@ -123,6 +128,12 @@ def check_history(run, case, history, digests, where):
     nat_seen = {}
     for h, d in zip(history, digests):
         if h[0] == "other":
+            a, b = d.split("|")
+            if a.split(":", 1)[1] != b.split(":", 1)[1]:
+                run.violation("a run for another election on a client that was used before differs from the same run on a fresh client ("
+                              + where + ")", input=case, impl=[a[:40], b[:40]], predicate="estimate_history_independent",
+                              signature="C12:estimate")
+                return False
             continue
         if h[0] in ("est", "fresh"):
             k = h[1]
